@@ -222,6 +222,12 @@ def run(item):
                 except Exception as e:
                     res.violation('inverse_layout', cfg, {'kind': 'raise', 'exc': repr(e)[:200]}, tags)
                     continue
+                try:
+                    Rp = DTCWTInverse(b, q, o, r)((yl, yh)).numpy()             # documented positional order (biort, qshift, o_dim, ri_dim)
+                    if Rp.shape != R.shape or not np.array_equal(Rp, R):
+                        res.violation('inverse_layout', dict(cfg, variant='positional arguments'), {'kind': 'value_or_shape'}, tags)
+                except Exception as e:
+                    res.violation('inverse_layout', dict(cfg, variant='positional arguments'), {'kind': 'raise', 'exc': repr(e)[:200]}, tags)
                 res.regime('inverse_layout')
                 d = cmp_mats(R.reshape(P, -1), inv0.reshape(P, -1), tol=1e-12) if R.shape == inv0.shape else \
                     {'kind': 'shape', 'observed': list(R.shape[1:]), 'expected': list(inv0.shape[1:])}
